@@ -164,3 +164,50 @@ LEMMAS = []
 ASSUMPTIONS = ["np.linspace(a,b,n)[i] == a + i*(b-a)/(n-1); slices [lo:up] keep order (prelude contracts)",
                "weights of get_1D_level_weights: only the length is verified here (comprehension over a symbolic range); values by layer B",
                "machine floats treated as reals (A-REAL); math.isclose modelled exactly with rel_tol 1e-9"]
+
+
+# --------------------------------------------------------------------------- trapezoidal weights
+class WeightCompositeTrapezoidal(Contract):
+    """composite trapezoidal weight of the returned point `index`: the point is number index+lowerBorder among the
+    num_points_with_boundary equidistant points of the box; the two ends of the box carry spacing/2, all others spacing.
+    With boundary points off the remaining points keep exactly these weights (C08)."""
+    file, qualname = FILE, "TrapezoidalGrid1D.weight_composite_trapezoidal"
+
+    def inputs(self, S):
+        return {"self": grid1d(S, after_set_area=True), "index": S.int("index")}
+
+    def pre(self, S, env):
+        f = env["self"].fields
+        return GetPointsAndWeights.state(env["self"]) + [("index-in-range", z3.And(env["index"] >= 0, env["index"] < f["num_points"])),
+                                                         ("returned-points-are-the-window", f["num_points"] == z3.If(z3.And(z3.Not(f["boundary"]), f["num_points"] == 1), 1, f["upperBorder"] - f["lowerBorder"]))]
+
+    def result(self, S, env):
+        return S.real("weight")
+
+    @staticmethod
+    def spec(f, index):
+        g = index + f["lowerBorder"]
+        return z3.If(z3.And(z3.Not(f["boundary"]), f["num_points"] == 1), f["spacing"],
+                     f["spacing"] * z3.If(z3.Or(g == 0, g == f["num_points_with_boundary"] - 1), z3.RealVal("1/2"), z3.RealVal(1)))
+
+    def post(self, S, old, env, result):
+        f = old["self"].fields
+        from pyvc import values as Vv
+        return [Cl("weight-is-the-composite-trapezoidal-weight-of-the-global-point-index", Vv.to_z3(result, True) == self.spec(f, old["index"]), prop=True)]
+
+    @staticmethod
+    def model_to_input(model):
+        return LevelToNumPoints.model_to_input(model)
+
+
+class Get1dWeight(WeightCompositeTrapezoidal):
+    qualname = "TrapezoidalGrid1D.get_1d_weight"
+    label = "TrapezoidalGrid1D.get_1d_weight[standard basis]"
+
+    def post(self, S, old, env, result):
+        f = old["self"].fields
+        from pyvc import values as Vv
+        return [Cl("standard-basis-weight-is-the-composite-trapezoidal-weight", Vv.to_z3(result, True) == self.spec(f, old["index"]), prop=True)]
+
+
+CONTRACTS += [WeightCompositeTrapezoidal(), Get1dWeight()]
